@@ -295,8 +295,142 @@ func c10Basic() []*scenario {
 	return out
 }
 
+
+// broker scripts over {PUBLISH(id,qos,dup), PUBREL(id), drop+resume}
+type bact struct {
+	kind string // pub rel resume
+	id   uint16
+	q    byte
+	dup  bool
+}
+
+func (a bact) text() string {
+	switch a.kind {
+	case "pub":
+		return fmt.Sprintf("P%dq%dd%s", a.id, a.q, hx.B01(a.dup))
+	case "rel":
+		return fmt.Sprintf("R%d", a.id)
+	}
+	return "X"
+}
+
+func c10Alphabet(ids int, rich bool) []bact {
+	var al []bact
+	for id := 1; id <= ids; id++ {
+		al = append(al, bact{kind: "pub", id: uint16(id), q: 2}, bact{kind: "rel", id: uint16(id)})
+		if rich {
+			al = append(al, bact{kind: "pub", id: uint16(id), q: 2, dup: true}, bact{kind: "pub", id: uint16(id), q: 1})
+		}
+	}
+	if !rich {
+		al = append(al, bact{kind: "pub", id: 1, q: 2, dup: true}, bact{kind: "pub", id: 1, q: 1})
+	}
+	al = append(al, bact{kind: "pub", id: 0, q: 0}, bact{kind: "resume"})
+	return al
+}
+
+func c10Script(cfg cfgT, acts []bact) []step {
+	call := 1
+	steps := opening(cfg, call, false)
+	for _, a := range acts {
+		switch a.kind {
+		case "pub":
+			steps = append(steps, sB(inPub(a.id, a.q, a.dup)), sIdle())
+		case "rel":
+			steps = append(steps, sB(&packet.Pubrel{ID: packet.ID(a.id)}), sIdle())
+		case "resume":
+			call++
+			steps = append(steps, sDrop(), sIdle())
+			steps = append(steps, opening(cfg, call, true)...)
+		}
+	}
+	return steps
+}
+
+func c10Name(acts []bact) string {
+	n := ""
+	for _, a := range acts {
+		n += a.text()
+	}
+	return n
+}
+
+func c10Enumerate(c *hx.Ctx) []*scenario {
+	var out []*scenario
+	type mode struct {
+		tag string
+		cfg cfgT
+	}
+	modes := []mode{
+		{"default", cfgT{validate: true, callback: true}},
+		{"early", cfgT{validate: true, callback: true, early: true}},
+		{"nocb", cfgT{validate: true}},
+		{"clean", cfgT{clean: true, validate: true, callback: true}},
+	}
+	depth, ids := 3, 2
+	if c.Thorough() {
+		depth = 4
+	}
+	var scripts [][]bact
+	var rec func(prefix []bact, d int, al []bact)
+	rec = func(prefix []bact, d int, al []bact) {
+		if len(prefix) > 0 {
+			scripts = append(scripts, append([]bact(nil), prefix...))
+		}
+		if d == 0 {
+			return
+		}
+		for _, a := range al {
+			rec(append(prefix, a), d-1, al)
+		}
+	}
+	rec(nil, depth, c10Alphabet(ids, false))
+	// three ids, interleaved handshakes, at a smaller depth
+	rec(nil, 2, c10Alphabet(3, true))
+	for _, m := range modes {
+		for si, sc := range scripts {
+			// quick: every script in the default mode, a seeded share in the other modes
+			if !c.Thorough() && m.tag != "default" && c.Rng.Intn(4) != 0 {
+				continue
+			}
+			_ = si
+			out = append(out, &scenario{name: "seq/" + m.tag + "-" + c10Name(sc), steps: c10Script(m.cfg, sc)})
+		}
+	}
+	// callback error at the k-th invocation, send failure at the k-th acknowledgement, session failures
+	var base [][]bact
+	p := func(id uint16, q byte) bact { return bact{kind: "pub", id: id, q: q} }
+	r := func(id uint16) bact { return bact{kind: "rel", id: id} }
+	x := bact{kind: "resume"}
+	base = append(base,
+		[]bact{p(1, 2), r(1), p(2, 1), p(0, 0), x, r(1), p(1, 2), r(1)},
+		[]bact{p(1, 2), p(2, 2), r(2), r(1), x, r(1), r(2)},
+		[]bact{p(1, 1), p(2, 2), {kind: "pub", id: 2, q: 2, dup: true}, r(2), r(2), x, p(2, 2), r(2)},
+		[]bact{p(1, 2), x, r(1), x, r(1), p(3, 1)},
+	)
+	for _, m := range modes[:3] {
+		for bi, b := range base {
+			for kind, lim := range map[string]int{"cb": 5, "send": 8, "send+": 8, "save": 3, "lookup": 4, "delete": 3, "all": 3, "recv": 6} {
+				lo := 1
+				if kind == "send" || kind == "send+" {
+					lo = 2 // the first Send is CONNECT
+				}
+				for k := lo; k <= lim; k++ {
+					if !c.Thorough() && m.tag != "default" && (k+bi)%2 == 0 {
+						continue
+					}
+					out = append(out, &scenario{name: fmt.Sprintf("fault/%s-b%d-%s@%d", m.tag, bi, kind, k),
+						failAt: map[string]int{kind: k}, asyncOk: k%2 == 0, steps: c10Script(m.cfg, b)})
+				}
+			}
+		}
+	}
+	return out
+}
+
 func c10Scenarios(c *hx.Ctx) []*scenario {
 	var out []*scenario
 	out = append(out, c10Basic()...)
+	out = append(out, c10Enumerate(c)...)
 	return out
 }
